@@ -39,6 +39,7 @@ RULE = (
     'pre-emption hits a thread while it is inside fdl.build or inside suspend_tracking, or '
     'inside one of the shared-state modules, and another thread then runs.'
 )
+RULE += (' ' + 'Rounds 3-4: program method_config; line-coverage single pre-emption sweep over 13 program pairs; double pre-emption sweep over the history.py steps touching the tracking flag.')
 ASSUMPTIONS = [
     'CPython with the GIL; switches happen between source lines of fiddle/_src (C code such as '
     'itertools.count.__next__ is atomic in the model, as under the GIL)',
